@@ -12,7 +12,7 @@ EXTENDS Integers, Sequences, FiniteSets, TLC, Json
 CONSTANTS Tier, Emit
 
 ProfileClasses == {"plain", "buildid0", "buildid1", "buildid2", "buildid3", "emptynames", "hugeids", "emptylabelkey", "edgeaddresses",
-                   "nomappings", "nosamples", "negativevalues", "nofunctions", "nilmapping", "weirdstrings", "zerovalues", "extremevalues"}
+                   "nomappings", "nosamples", "negativevalues", "nofunctions", "nilmapping", "weirdstrings", "zerovalues", "extremevalues", "partialunits"}
 Commands == {"top", "tree", "dot", "tags", "traces", "raw", "callgrind", "list", "disasm", "weblist", "peek", "proto", "topproto", "svg", "comments", "text"}
 RegexFlags == {"focus", "ignore", "hide", "show", "show_from", "tagshow", "taghide", "prune_from", "tagroot", "tagleaf"}
 RegexVals == {"f", "(", "", ".*", "[", "a**", "\\", "(?i)F", "f|", "^$"}
